@@ -6,6 +6,7 @@ Tie: rebuild-count correspondence (model prediction from the real ModelMutator o
 `CREATE TABLE "TEMP_TABLE"` statements in the real SQL), and the property oracle: per table,
 rebuilds of the optimised run <= rebuilds one mutation at a time; documented single-rebuild runs.
 """
+import json
 import re
 
 from .. import dbrig, dj, optrig, sigs
@@ -44,6 +45,7 @@ def real_ops_and_sql(sig, muts, alias='default'):
     for mt in am._mutators:
         if isinstance(mt, ModelMutator):
             ops = []
+            last_meta = {}        # Meta property -> the value the batch has established so far
             for op in mt._ops:
                 d = []
                 if op['type'] == 'change_column':
@@ -52,6 +54,13 @@ def real_ops_and_sql(sig, muts, alias='default'):
                         d = [a for a in d if a not in ('null',)]
                 elif op['type'] == 'change_meta':
                     d = [op['prop_name']]
+                    # a ChangeMeta that restates the value in force (the signature's, or what an earlier ChangeMeta of
+                    # the batch set) changes nothing in the database
+                    norm = lambda v: json.dumps(v, sort_keys=True, default=str)
+                    before = last_meta.get(op['prop_name'], norm(op.get('old_value')))
+                    last_meta[op['prop_name']] = norm(op.get('new_value'))
+                    if before == norm(op.get('new_value')):
+                        d = []        # still an operation in the queue (it separates what could otherwise be merged)
                 ops.append({'type': op['type'], 'detail': d})
             per_mutator.append((mt.model_name, ops))
     sql = am.to_sql()
@@ -222,6 +231,19 @@ def constraint_sequences():
     return [[add, drop], [nn, drop], [drop, add], [drop], [add, nn, drop]]
 
 
+def restated_meta_sequences():
+    """the same Meta value stated by two evolutions of one batch (each carries the full list): the second statement
+    changes nothing and must cost nothing, with or without another mutation in between"""
+    from django.db import models
+    add = {'t': 'AddField', 'model': 'Alpha', 'field': 'c', 'ftype': 'IntegerField', 'initial': None,
+           'attrs': [['null', 'true']]}
+    setc = lambda: {'t': 'ChangeMeta', 'model': 'Alpha', 'prop': 'constraints',
+                    'py_value': [{'type': models.UniqueConstraint, 'name': 'alpha_a_b_uniq', 'fields': ('a', 'b')}]}
+    setu = lambda: {'t': 'ChangeMeta', 'model': 'Alpha', 'prop': 'unique_together', 'py_value': [('a', 'b')]}
+    seti = lambda: {'t': 'ChangeMeta', 'model': 'Alpha', 'prop': 'index_together', 'py_value': [('a', 'b')]}
+    return [[setc(), setc()], [setc(), add, setc()], [setu(), add, setu()], [seti(), seti()]]
+
+
 def run(ctx):
     dj.setup()
     quick = ctx.tier == 'quick'
@@ -258,7 +280,7 @@ def run(ctx):
     ir3 = list(optrig.valid_sequences(sig, ira, 3))
     ctx.rng.shuffle(ir3)
     ir += ir3[:50 if quick else 2000]
-    work = [(unique_spec(), q) for q in unique_rename_sequences()] + [(constraint_spec(), q) for q in constraint_sequences()] + \
+    work = [(unique_spec(), q) for q in unique_rename_sequences()] + [(constraint_spec(), q) for q in constraint_sequences()] + [(spec, q) for q in restated_meta_sequences()] + \
         [(spec, q) for q in meta_sequences() + reuse_sequences() + rebuild_then_meta_sequences()] + [(spec2, q) for q in rel] + [(spec, q) for q in ir] + \
         [(spec, q) for q in seqs]
     merge_witness = None
